@@ -2,11 +2,11 @@
 import math, random
 import numpy as np
 from scipy import sparse
-import kernels, tvlib, harness_acd
+import kernels, tvlib, harness_acd, harness_solvers
 import solverlib as sl
 
-GEN_SOURCES = ["skglm/solvers/anderson_cd.py", "skglm/datafits/single_task.py", "skglm/utils/prox_funcs.py", "skglm/penalties/separable.py"]
-EXTRA_TARGETS = ["Skel/MockACD.vo", "Gen/KernCD.vo", "Gen/KernACD.vo", "Gen/DfSingle.vo", "Gen/PenSeparable.vo"]
+GEN_SOURCES = ["skglm/solvers/anderson_cd.py", "skglm/datafits/single_task.py", "skglm/utils/prox_funcs.py", "skglm/penalties/separable.py", "skglm/solvers/gram_cd.py"]
+EXTRA_TARGETS = ["Skel/MockACD.vo", "Gen/KernCD.vo", "Gen/KernACD.vo", "Gen/DfSingle.vo", "Gen/PenSeparable.vo", "Skel/CorrSolvers.vo", "Skel/GramCDProofs.vo"]
 TRUSTED_BASE = [
     "Coq 8.16.1 kernel (coqc); vm_compute only in correspondence files",
     "axioms: Reals (sig_forall_dec, sig_not_dec), functional_extensionality_dep, Classical_Prop.classic",
@@ -33,10 +33,11 @@ def correspondence(tier, rng):
     kc += [c for c in kernels.gen_datafits(rng, 60 if tier == "quick" else 300) if "Quadratic_" in c[0] and ("lipschitz" in c[0] or "gradient_scalar" in c[0] or "value" in c[0])]
     r2 = tvlib.run_cases(kc, ["Gen.ProxFuncs", "Gen.PenSeparable", "Gen.SparseOps", "Gen.DfSingle", "Gen.KernCD", "Gen.KernACD"],
                          "C03b", shard=25, jobs=16)
-    return dict(cases=len(cases) + len(kc), bad=(r1["bad"] + r2["bad"])[:10], errors=r1["errors"] + r2["errors"],
+    base = dict(cases=len(cases) + len(kc), bad=(r1["bad"] + r2["bad"])[:10], errors=r1["errors"] + r2["errors"],
                 distribution=dict(skeleton_runs=dist, kernel_cases=len(kc)),
                 distinct_nontrivial=len({c[0] for c in cases}) + len({c[0] for c in kc}),
                 samples=[dict(trace=cases[0][0][:500]), dict(case=kc[0][0][:300])])
+    return harness_solvers.merge_corr(base, harness_solvers.solver_corr(tier, rng, "C03s"))
 
 
 def oracle(tier, rng, deep=False):
